@@ -115,3 +115,8 @@ func init() {
 		},
 	})
 }
+
+func init() {
+	c := fw.Lookup("C06")
+	c.Phases = append(c.Phases, sqlExtraPhases(evalC06, true)...)
+}
